@@ -467,8 +467,11 @@ impl TransactionBuilder {
             let input = available_inputs.pop().unwrap();
             #[cfg(feature = "verif-hooks")]
             crate::verif_hooks::probe("sel_shortcut", available_inputs.len() as u64);
+            let input_fee =
+                self.fee_for_input(&input.output.address, &input.input, &input.output.amount)?;
             self.inputs.add_regular_utxo(&input)?;
             input_total = input_total.checked_add(&input.output.amount)?;
+            output_total = output_total.checked_add(&Value::new(&input_fee))?;
         }
 
         match strategy {
